@@ -386,7 +386,7 @@ def run(tier, V):
            'syscall_sequences': seqs, 'guard_cases': [g[2] for g in gjobs], 'exhaustive': True,
            'rule': ('for each buffer shape (empty / one line / one batch / several batches / lines >= 4096 / mixture) and save command, a dry run under the shim gives the open/write/close sequence of the save; '
                     'then EVERY position x EVERY kind (%s error returns; short counts 1, half, len-1) is injected, one fault per run (2 processes per fault: inspect file after the command; continue with :q, :b, :w!, :q). '
-                    'non-trivial = the shim log shows the fault fired (INJECTED).  guards: full truth table target {own, foreign-existing, absent} x mtime {older, equal, newer; for the foreign file also 0} x {w, w!}; + random scenarios with 2-3 buffers, files replaced/touched behind the editor, any buffer current, then w/wq/x/xa or a write to another open buffer\'s file without !; + histories of 40-120 failed saves (full device, missing directory) under a descriptor limit of 24-48, then a retry; the shim log is also checked for save descriptors left open by a failed save.' % ','.join(err_kinds)),
+                    'non-trivial = the shim log shows the fault fired (INJECTED).  guards: full truth table target {own, own reached through a symbolic link, foreign-existing, absent} x mtime {older, equal, newer; for the foreign file also 0} x {w, w!}; + random scenarios with 2-3 buffers, files replaced/touched behind the editor, any buffer current, then w/wq/x/xa or a write to another open buffer\'s file without !; + histories of 40-120 failed saves (full device, missing directory) under a descriptor limit of 24-48, then a retry; the shim log is also checked for save descriptors left open by a failed save.' % ','.join(err_kinds)),
            'samples': [{'buffer': j[2], 'command': j[6], 'fault': j[7]} for j in jobs[::max(1, len(jobs) // 5)]][:6]}
     assumptions = ['a save fd is a descriptor opened with O_WRONLY|O_CREAT; ftruncate faults are outside the quantifier (open/write/close)',
                    'the retry after a failure is :w! (a torn write legitimately advanced the file\'s mtime)',
